@@ -1,18 +1,46 @@
 use crate::ast::{BinaryOp, Commented, Expr, RecordEntry, RecordKey, SpannedExpr};
 use crate::ast_to_source::{expr_to_source, format_record_key, needs_parens_in_binop};
 use crate::values::LambdaArg;
+use std::cell::RefCell;
+use std::collections::HashMap;
 
 const DEFAULT_MAX_COLUMNS: usize = 80;
 const INDENT_SIZE: usize = 2;
 
+thread_local! {
+    /// Layouts already computed during the current `format_expr` call, keyed by
+    /// (address of the sub-expression, max_cols, indent). Lambdas and conditionals lay out
+    /// their body once at the current indentation to see whether it fits and, if it does
+    /// not, again one level deeper; without this table each nesting level doubles the work,
+    /// so formatting was exponential in the nesting depth.
+    static LAYOUT_CACHE: RefCell<HashMap<(usize, usize, usize), String>> =
+        RefCell::new(HashMap::new());
+}
+
 /// Format a Blots expression with intelligent line breaking
 pub fn format_expr(expr: &SpannedExpr, max_columns: Option<usize>) -> String {
     let max_cols = max_columns.unwrap_or(DEFAULT_MAX_COLUMNS);
-    format_expr_impl(expr, max_cols, 0)
+    // The keys are addresses inside `expr`, which is borrowed for the whole call: start
+    // from an empty table and leave none behind
+    LAYOUT_CACHE.with(|cache| cache.borrow_mut().clear());
+    let formatted = format_expr_impl(expr, max_cols, 0);
+    LAYOUT_CACHE.with(|cache| cache.borrow_mut().clear());
+    formatted
 }
 
-/// Internal formatting implementation with indentation tracking
+/// Internal formatting implementation with indentation tracking (memoised per call of
+/// `format_expr`, see `LAYOUT_CACHE`)
 fn format_expr_impl(expr: &SpannedExpr, max_cols: usize, indent: usize) -> String {
+    let key = (expr as *const SpannedExpr as usize, max_cols, indent);
+    if let Some(hit) = LAYOUT_CACHE.with(|cache| cache.borrow().get(&key).cloned()) {
+        return hit;
+    }
+    let formatted = format_expr_uncached(expr, max_cols, indent);
+    LAYOUT_CACHE.with(|cache| cache.borrow_mut().insert(key, formatted.clone()));
+    formatted
+}
+
+fn format_expr_uncached(expr: &SpannedExpr, max_cols: usize, indent: usize) -> String {
     // Special handling for lambdas to ensure correct argument formatting
     if let Expr::Lambda { args, body } = &expr.node {
         return format_lambda(args, body, max_cols, indent);
